@@ -149,32 +149,37 @@ class Check:
             return
         self.proof["discharged"] = len(names)
 
-    def check_translation(self):
-        """Regenerate the Gallina translation of the arithmetic core of classification.py from REPO's working tree
-        (tools/py2coq.py) and re-check coq/Refine/ClassRefine.v: every generated function equals the hand model."""
-        gen = os.path.join(WORK, "gen_" + self.pid)
+    TRANSLATED = {"classification": ("src/paulie/classifier/classification.py", "ClassGen.v", "ClassRefine.v", "Model/Star.v"),
+                  "compiler": ("src/paulie/application/pauli_compiler.py", "CompGen.v", "CompRefine.v", "Model/Compiler.v"),
+                  "pstring": ("src/paulie/common/pauli_string_bitarray.py", "PSGen.v", "PSRefine.v", "Model/Pauli.v")}
+
+    def check_translation(self, kind="classification"):
+        """Regenerate the Gallina translation of part of the source from REPO's working tree (tools/py2coq.py) and
+        re-check coq/Refine/<..>Refine.v: every generated function equals the hand model."""
+        srcf, genf, reff, modelf = self.TRANSLATED[kind]
+        gen = os.path.join(WORK, "gen_%s_%s" % (self.pid, kind))
         os.makedirs(gen, exist_ok=True)
         for f in os.listdir(gen):
             os.remove(os.path.join(gen, f))
-        info = {"translator": "tools/py2coq.py", "source": "src/paulie/classifier/classification.py", "refinement": "coq/Refine/ClassRefine.v"}
-        self.cov["translated_model"] = info
-        r = run([sys.executable, os.path.join(VERIF, "tools", "py2coq.py"), REPO, os.path.join(gen, "ClassGen.v")])
+        info = {"translator": "tools/py2coq.py", "source": srcf, "refinement": "coq/Refine/" + reff}
+        self.cov.setdefault("translated_model", {})[kind] = info
+        r = run([PY, os.path.join(VERIF, "tools", "py2coq.py"), REPO, os.path.join(gen, genf), kind])
         info["translator_output"] = r.stdout.strip()[-400:]
-        if r.returncode != 0:
-            self.obligation_broken("translator tools/py2coq.py cannot read classification.py any more (fail-closed): the generated model is missing", r.stdout[-3000:])
-            return False
-        q = "-Q Model PauLie -Q Theory PauLie -Q Refine PauLieRefine -Q %s PauLieGen -w -notation-overridden,-deprecated" % gen
-        r = run(["bash", "-c", "cd %s/coq && timeout 300 coqc %s %s/ClassGen.v 2>&1 && timeout 600 coqc %s -o %s/ClassRefine.vo Refine/ClassRefine.v 2>&1" % (VERIF, q, gen, q, gen)])
-        text = open(os.path.join(VERIF, "coq", "Refine", "ClassRefine.v")).read()
+        text = open(os.path.join(VERIF, "coq", "Refine", reff)).read()
         names = re.findall(r"^\s*(?:Theorem|Example)\s+(\w+)", text, re.M)
         pa = len(re.findall(r"^\s*Print Assumptions", text, re.M))
         info["theorems"] = names
         self.proof["obligations"] += len(names)
         if r.returncode != 0:
-            self.obligation_broken("Refine/ClassRefine.v does not check: the model generated from classification.py is no longer proved equal to the hand model (Model/Star.v)", r.stdout[-3000:])
+            self.obligation_broken("translator tools/py2coq.py cannot read %s any more (fail-closed): the generated model is missing and Refine/%s is not checked" % (srcf, reff), r.stdout[-3000:])
+            return False
+        q = "-Q Model PauLie -Q Theory PauLie -Q Refine PauLieRefine -Q %s PauLieGen -w -notation-overridden,-deprecated" % gen
+        r = run(["bash", "-c", "cd %s/coq && timeout 300 coqc %s %s/%s 2>&1 && timeout 600 coqc %s -o %s/%so Refine/%s 2>&1" % (VERIF, q, gen, genf, q, gen, reff, reff)])
+        if r.returncode != 0:
+            self.obligation_broken("Refine/%s does not check: the model generated from %s is no longer proved equal to the hand model (%s)" % (reff, srcf, modelf), r.stdout[-3000:])
             return False
         if "Axioms:" in r.stdout or r.stdout.count("Closed under the global context") < pa:
-            self.obligation_broken("Refine/ClassRefine.v: theorems depend on axioms", r.stdout[-2000:])
+            self.obligation_broken("Refine/%s: theorems depend on axioms" % reff, r.stdout[-2000:])
             return False
         self.proof["discharged"] += len(names)
         self.proof["theorems"] = self.proof["theorems"] + ["Refine." + n for n in names]
